@@ -250,8 +250,11 @@ def assignments(msg: J, layer: J, r: random.Random, n: int = 6) -> List[Dict[str
                         v[p["name"]] = 8 * len(val) * (2 if base == "A_UNICODE2STRING" else 1)
                     elif isinstance(val, int):
                         # (values of these objects fit into 8 bits; the declared length need
-                        # not be a multiple of eight)
-                        v[p["name"]] = r.choice([16, 24, 32, 9, 12, 13, 20])
+                        # not be a multiple of eight: those come first, and a signed object
+                        # then carries a negative value - its sign bits end where the key says)
+                        v[p["name"]] = [12, 9, 20, 13, 16, 24, 32][(i // 2) % 7]
+                        if base == "A_INT32" and v[p["name"]] % 8 and val >= 0:
+                            v[user["name"]] = -(val % 100) - 1
         out.append(v)
     return out
 
